@@ -108,9 +108,23 @@ Theorem C12_flexfec_zero_refuted : forall n,
 Proof. intros n. cbn [fold_left ff_step aset]. rewrite (ff_zero_grows n _ 1 0); [f_equal|reflexivity|lia]. Qed.
 Print Assumptions C12_flexfec_zero_refuted.
 
-(* stats interceptor, REFUTED (F38): n streams bound and unbound again leave n recorders *)
+(* stats interceptor (with fix 0d520bf: Unbind{Local,Remote}Stream release the recorder): after every
+   Bind/Unbind history the recorders are exactly the currently bound streams (no duplicates), an
+   unbound stream has no recorder, and n streams bound and unbound again leave nothing *)
+Theorem C12_stats_recorders_bounded : forall ops,
+  let st := fold_left si_step ops si_init in
+  si_recorders st = si_bound st /\ NoDup (si_recorders st).
+Proof. intros ops. split; [apply si_run_eq; reflexivity|apply si_run_NoDup; constructor]. Qed.
+Print Assumptions C12_stats_recorders_bounded.
+Theorem C12_stats_unbind_releases :
+  (forall st s, ~ In s (si_recorders (si_step st (SiUnbind s)))) /\
+  (forall n, let st := fold_left si_step (si_churn 1 n) si_init in si_recorders st = [] /\ si_bound st = []).
+Proof. split; [exact si_unbind_releases|intros n; apply si_churn_releases; reflexivity]. Qed.
+Print Assumptions C12_stats_unbind_releases.
+(* the code BEFORE that fix (si_step_prefix: no Unbind*Stream), REFUTED (F38): n streams bound and
+   unbound again left n recorders. Statement about the pre-fix function only. *)
 Theorem C12_stats_unbind_refuted : forall n,
-  let st := fold_left si_step (si_churn 1 n) si_init in
+  let st := fold_left si_step_prefix (si_churn 1 n) si_init in
   zlen (si_recorders st) = Z.of_nat n /\ si_bound st = [].
 Proof. intros n. apply (si_churn_grows n 1 si_init); [cbn; tauto|reflexivity]. Qed.
 Print Assumptions C12_stats_unbind_refuted.
